@@ -77,6 +77,9 @@ func c13Gen(r *rand.Rand, lane string) *c13Case {
 	w("rule_id: " + rule)
 	w("tests:")
 	n := r.Intn(13)
+	if core.Chance(r, 1, 40) {
+		n = core.Pick(r, 9, 10, 11, 99, 100, 101, 255, 256, 257, 1000, 1001) // counters that gain a digit or pass a byte
+	}
 	mode := lane
 	if mode == "" {
 		mode = core.Pick(r, "id", "id", "title", "both", "both-rev", "mixed")
@@ -340,7 +343,7 @@ func init() {
 	register(&core.Property{
 		ID:    "C13",
 		Level: "exploration",
-		Rule: "generated ftw-style YAML test files (0..12 tests; lanes id-only, title-only, both, both reversed, mixed; odd id values; payload lines with bytes that are not valid UTF-8; CRLF; missing/extra final newlines, trailing white-space lines; .yaml/.yml; single rule argument or --all; text or github output; one file in ten reached through a symbolic link; files named like the argument in the working directory) are run through the built CLI: --check, renumber, renumber again, --check. " +
+		Rule: "generated ftw-style YAML test files (0..12 tests, one in forty with 9..1001 so that counters gain digits; lanes id-only, title-only, both, both reversed, mixed; odd id values; payload lines with bytes that are not valid UTF-8; CRLF; missing/extra final newlines, trailing white-space lines; .yaml/.yml; single rule argument or --all; text or github output; one file in ten reached through a symbolic link; files named like the argument in the working directory) are run through the built CLI: --check, renumber, renumber again, --check. " +
 			"Oracle: independent line model (n-th test_id -> n, n-th test_title -> <rule>-n, other line content equal, trailing blank lines removed, one final newline), byte comparison, snapshot of the whole tree. Non-trivial = file with >= 2 numbered fields; distinct by case hash. Domain: every file has at least one non-blank line; each line carries at most one of the two keys, written 'key:<space|tab>value'.",
 		Cases: func(env *core.Env, rng *rand.Rand) []core.Case {
 			n := env.N(1500, 15000)
